@@ -96,8 +96,13 @@ structure Seg where
   len : Nat
   deriving DecidableEq, Repr, Inhabited
 
+/-- The encodings of a `TextSource`.  `utf8` and `utf16` are the crate's two
+    implementations (`str`, `[u16]`); `utf32` (one code unit per character) is not
+    a Rust type: the generic code is parametric in the text source, and this
+    instance is what "results do not depend on how many code units a character
+    occupies" (C08, C09, C12) is stated against. -/
 inductive Enc where
-  | utf8 | utf16
+  | utf8 | utf16 | utf32
   deriving DecidableEq, Repr, Inhabited
 
 /-- `char::len_utf8` -/
@@ -112,6 +117,7 @@ def utf16Len (c : Nat) : Nat :=
 def Enc.charLen : Enc → Nat → Nat
   | .utf8, c => utf8Len c
   | .utf16, c => utf16Len c
+  | .utf32, _ => 1
 
 /-- What the generic code sees of a `TextSource`: the encoding (for
     `T::char_len`), the length in code units and the characters with their
